@@ -593,6 +593,8 @@ def run(model, rep):
     rule_h(model, rep)
     rule_i(model, rep)
     rule_j(model, rep)
+    from . import c05 as _c05
+    _c05.rule_b(model, Renamed(rep, {"C05.b": "C01.m-size-check"}, "C01.x-"))
     c12.rule_copies(model, Renamed(rep, {"C12.g": "C01.k-libpass-helper-copies"}, "C01.x-"))
     c12.rule_alphabets(model, Renamed(rep, {"C12.e": "C01.l-codec-alphabets", "C12.f": "C01.l-b64-helpers"}, "C01.x-"))
     rule_f(model, rep)
